@@ -3,6 +3,7 @@
 mod arith;
 mod c10;
 mod c11;
+mod c17;
 mod c18;
 mod gens;
 mod lang;
@@ -20,6 +21,7 @@ pub fn exec(op: &str, inputs: &[String]) -> Option<Reply> {
     // first module that recognises the op answers
     None.or_else(|| c18::exec(op, inputs))
         .or_else(|| lang::exec(op, inputs))
+        .or_else(|| c17::exec(op, inputs))
         .or_else(|| arith::exec(op, inputs))
         .or_else(|| c10::exec(op, inputs))
         .or_else(|| c11::exec(op, inputs))
@@ -33,6 +35,7 @@ fn generate(prop: &str, sink: &mut sink::Sink, rng: &mut rng::Rng, n: u64) -> bo
         "C07" => lang::generate(sink, rng, n, false, Some("o.c07")),
         "C08" => lang::generate(sink, rng, n, false, Some("o.c08")),
         "C09" => lang::generate(sink, rng, n, false, Some("o.c09")),
+        "C17" => c17::generate(sink, rng, n),
         "C13" => lang::generate(sink, rng, n, false, Some("o.c13")),
         "C10" => c10::generate(sink, rng, n),
         "C11" => c11::generate(sink, rng, n),
